@@ -47,6 +47,16 @@ def k_term_day(eng, aligned):
             return D[off]
         model = ctx.model
         base = model.call
+        # components of the date and of the term days, for bodies that compute with day-of-month numbers instead of day numbers:
+        # the date is day (O - F + 1) of month m (length dim); a term day on or after F lies in the same month, an earlier one in the
+        # previous month (length prevlen; the walk never goes further back than that under the spacing contract)
+        prevlen = ctx.fresh_value("previous_month_length", "isize")
+        sfields = struct_fields(os.path.join(REPO, "src/tyme/solar.rs"), "SolarDay")
+        dom = T("(+ (- %s %s) 1)" % (O.s, F.s), "Int")
+        rec.fields[sfields.index("day")] = dom
+        mrec = Rec(ctx, "self.month", "SolarMonth")
+        rec.fields[sfields.index("month")] = mrec
+        same = lambda off: "(>= %s %s)" % (dterm(off).s, F.s)
 
         def call(c, fr, callee, args, path):
             a = [model.deref(c, x) for x in args]
@@ -54,6 +64,20 @@ def k_term_day(eng, aligned):
                 return True, y
             if callee == "SolarDay::get_month" and a[0] is rec:
                 return True, m
+            if callee == "SolarDay::get_day" and a[0] is rec:
+                return True, dom
+            if callee == "SolarDay::get_solar_month" and a[0] is rec:
+                return True, mrec
+            if callee == "SolarMonth::get_day_count" and a[0] is mrec:
+                return True, dim
+            if a and isinstance(a[0], TDay) and callee in ("SolarDay::get_day", "SolarDay::get_month", "SolarDay::get_year"):
+                off = a[0].t.off
+                d = dterm(off).s
+                if callee == "SolarDay::get_day":
+                    return True, T("(ite %s (+ (- %s %s) 1) (+ (- %s (- %s %s)) 1))" % (same(off), d, F.s, d, F.s, prevlen.s), "Int")
+                if callee == "SolarDay::get_month":
+                    return True, T("(ite %s %s (ite (= %s 1) 12 (- %s 1)))" % (same(off), m.s, m.s, m.s), "Int")
+                return True, T("(ite (or %s (> %s 1)) %s (- %s 1))" % (same(off), m.s, y.s, y.s), "Int")
             if callee == "SolarTerm::from_index" and isinstance(a[0], T) and isinstance(a[1], T):
                 # 11.c: from_index(y, i) denotes term number 24 y + i
                 return True, Term(T("(+ (* 24 %s) %s)" % (a[0].s, a[1].s), "Int"), 0)
@@ -73,7 +97,7 @@ def k_term_day(eng, aligned):
         model.call = call
         paths = ctx.run(fn, [("refrec", rec)])
         k0 = "(+ (* 24 %s) (* 2 %s))" % (y.s, m.s)
-        pre = ["(<= 1 %s 9999)" % y.s, "(<= 1 %s 12)" % m.s, "(<= 21 %s 31)" % dim.s, "(<= 1721424 %s 5373484)" % F.s,
+        pre = ["(<= 1 %s 9999)" % y.s, "(<= 1 %s 12)" % m.s, "(<= 21 %s 31)" % dim.s, "(<= 28 %s 31)" % prevlen.s, "(<= 1721424 %s 5373484)" % F.s,
                "(<= %s %s (+ %s %s (- 1)))" % (F.s, O.s, F.s, dim.s)]
         for off in range(-6, 3):
             dterm(off)
@@ -155,6 +179,25 @@ def k_term_instant(eng):
             return D[off]
         model = ctx.model
         base = model.call
+        # components, for bodies that compare the civil day first and the clock afterwards: instant = 86400 * day + 3600 h + 60 m + s
+        tfields = struct_fields(os.path.join(REPO, "src/tyme/solar.rs"), "SolarTime")
+        comp = {}
+
+        class DayO:
+            def __init__(self, t):
+                self.t = t
+
+        def parts(key, inst):
+            if key not in comp:
+                d = ctx.fresh_value("day_of_%s" % key, "isize")
+                hh, mm, ss = [ctx.fresh_value("%s_of_%s" % (n, key), "usize") for n in ("hour", "minute", "second")]
+                comp[key] = (d, hh, mm, ss)
+                defs.append("(and (<= 0 %s 23) (<= 0 %s 59) (<= 0 %s 59) (= %s (+ (* 86400 %s) (* 3600 %s) (* 60 %s) %s)))" % (hh.s, mm.s, ss.s, inst.s, d.s, hh.s, mm.s, ss.s))
+            return comp[key]
+        defs = []
+        od, oh, om, osec = parts("self", O)
+        rec.fields[tfields.index("day")] = DayO(od)
+        rec.fields[tfields.index("hour")], rec.fields[tfields.index("minute")], rec.fields[tfields.index("second")] = oh, om, osec
 
         def call(c, fr, callee, args, path):
             a = [model.deref(c, x) for x in args]
@@ -162,6 +205,17 @@ def k_term_instant(eng):
                 return True, y
             if callee == "SolarTime::get_month" and a[0] is rec:
                 return True, m
+            if a and (a[0] is rec or isinstance(a[0], TInst)) and callee in ("SolarTime::get_solar_day", "SolarTime::get_hour", "SolarTime::get_minute", "SolarTime::get_second"):
+                p4 = (od, oh, om, osec) if a[0] is rec else parts("term_%s%d" % ("p" if a[0].t.off >= 0 else "m", abs(a[0].t.off)), dterm(a[0].t.off))
+                k = ("SolarTime::get_solar_day", "SolarTime::get_hour", "SolarTime::get_minute", "SolarTime::get_second").index(callee)
+                return True, (DayO(p4[0]) if k == 0 else p4[k])
+            if len(a) == 2 and isinstance(a[0], DayO) and isinstance(a[1], DayO):
+                r = {"SolarDay::is_before": "(< %s %s)", "SolarDay::is_after": "(> %s %s)", "<SolarDay as PartialEq>::eq": "(= %s %s)", "<SolarDay as PartialEq>::ne": "(not (= %s %s))",
+                     "SolarDay::subtract": None}.get(callee, 0)
+                if r:
+                    return True, T(r % (a[0].t.s, a[1].t.s), "Bool")
+                if r is None:
+                    return True, T("(- %s %s)" % (a[0].t.s, a[1].t.s), "Int")
             if callee == "SolarTerm::from_index" and isinstance(a[0], T) and isinstance(a[1], T):
                 return True, Term(T("(+ (* 24 %s) %s)" % (a[0].s, a[1].s), "Int"), 0)        # 11.c
             if callee == "<SolarTerm as Tyme>::next" and isinstance(a[0], Term) and isinstance(a[1], T) and a[1].c is not None:
@@ -187,6 +241,7 @@ def k_term_instant(eng):
         for off in range(-5, 3):
             pre.append("(<= 1261440 (- %s %s) 1365120)" % (D[off].s, D[off - 1].s))          # 14.6 .. 15.8 days in seconds
         pre += ["(<= %s %s)" % (F.s, D[0].s), "(< %s %s)" % (D[0].s, end), "(>= %s %s)" % (D[1].s, end)]
+        pre += defs      # component definitions created while the body ran
 
         def shape(p):
             if getattr(p, "cut", False):
